@@ -94,6 +94,17 @@ def tour_len_grid(D, tour: List[int]) -> int:
     return sum(D[a][b] for a, b in zip(seq, seq[1:]))
 
 
+def _reward_or_pending(ad, env, td, actions):
+    """reward of a (mask-generated) batch; with `check_solution=True` (a variant) through the public `get_reward`, which
+    validates first.  An assertion raised here means no reward is reported for a mask-generated batch: remembered and
+    reported as a violation by `with_glue` (the generic routine treats the ValueError as a skipped case)."""
+    try:
+        return env.get_reward(td, actions) if getattr(env, "check_solution", False) else env._get_reward(td, actions)
+    except AssertionError as e:
+        ad.__dict__.setdefault("_pending", []).append({"error": str(e), "actions": actions.tolist()})
+        raise ValueError(f"get_reward raised on a mask-generated batch: {e}")
+
+
 # ---------------------------------------------------------------------------------------------------
 # OP
 # ---------------------------------------------------------------------------------------------------
@@ -208,7 +219,7 @@ class OpAdapter(envcorr.Adapter):
                 glue_off = True
             if abs(cq - (Lq + Fraction(1, 10**5))) > 4 * ulp32(float(max(Lq, dq)) + 1e-5) + Fraction(1, 10**12):
                 glue_off = True
-        self._rb[key] = (budget, cbound, (hyp_fail, glue_off))
+        self._rb[key] = (budget, cbound, (hyp_fail, glue_off), inst)
         return self._rb[key]
 
     def tol_units(self, inst) -> int:
@@ -217,17 +228,18 @@ class OpAdapter(envcorr.Adapter):
 
     def line(self, op, inst, actions):
         n = inst["n"]
-        budget, cbound, _ = self.readback(inst)
+        budget, cbound = self.readback(inst)[:2]
         D = geom.dist_matrix(inst["pts"])
         flat = [v * GRID_TO_OP for row in D for v in row]
         prize = [p * (OP_UNIT // PRIZE_DEN) for p in inst["prize"]]
         j = lambda xs: " ".join(map(str, xs))
-        return (f"op.{op} {n} {inst['L20'] * T20_TO_OP} {self.tol_units(inst)} | {j(prize)} | {j(flat)} | {j(budget)} | "
+        rho = math.ceil(ulp32(max(inst["L20"] / rl.SCALE, max(D[0]) / geom.GRID, 2.0 ** -10)) * OP_UNIT)
+        return (f"op.{op} {n} {inst['L20'] * T20_TO_OP} {self.tol_units(inst)} {OP_UNIT} {rho} | {j(prize)} | {j(flat)} | {j(budget)} | "
                 f"{j(cbound)} | {j(actions)}")
 
     def real_reward_ticks(self, env, td, actions):
         # with `check_solution=True` (a variant) go through the public `get_reward`, which validates first
-        r = env.get_reward(td, actions) if getattr(env, "check_solution", False) else env._get_reward(td, actions)
+        r = _reward_or_pending(self, env, td, actions)
         return [op_units(v) for v in r.flatten().tolist()]
 
     def step_bound(self, inst):
@@ -283,7 +295,8 @@ class OpAdapter(envcorr.Adapter):
         return "op:mask-hides-feasible"
 
     def batch_key(self, width):
-        """known finding only for action tensors with a single column (gather_by_index squeezes the step dimension)"""
+        """(the single-column case was the finding op-checker-single-column-batch-C06, fixed upstream by 9be001b: the
+        suffix is diagnostic only, a reappearance is a plain violation)"""
         return "op:checker-batch-differs-from-rows" + (":single-column" if width == 1 else "")
 
     def accepts_key(self, inst, sol, f):
@@ -421,7 +434,7 @@ class PctspAdapter(envcorr.Adapter):
                 "var": tuple(sorted(var.items()))}
 
     def real_reward_ticks(self, env, td, actions):
-        r = env.get_reward(td, actions) if getattr(env, "check_solution", False) else env._get_reward(td, actions)
+        r = _reward_or_pending(self, env, td, actions)
         return [rl.ticks(v) for v in r.flatten().tolist()]
 
     def steering_prefix(self, rng, inst):
@@ -523,6 +536,9 @@ def with_glue(fn):
 
     def run(ctx, ad):
         fn(ctx, ad)
+        for pend in ad.__dict__.pop("_pending", [])[:5]:
+            ctx.violation(f"{ad.name}:get_reward-raises-on-mask-generated",
+                          "the reward function raises on a batch of finished mask-confined episodes", pend)
         if isinstance(ad, OpAdapter):
             ctx.count("op.budget-rows-read-back", len(ad._rb))
             bad = [(k, v[2][0][ctx.prop]) for k, v in ad._rb.items() if v[2][0].get(ctx.prop)]
@@ -534,6 +550,31 @@ def with_glue(fn):
             if bad:
                 ctx.disagreement("op: the budgets the code pre-computes violate a hypothesis of the OP theorems: " + bad[0][1][0],
                                  {"pts_L20": bad[0][0], "failed": bad[0][1]})
+            if ctx.prop == "C06":
+                insts = [v[3] for v in list(ad._rb.values())[:200]]
+                reps = ctx.driver.ask_many([ad.line("episode", i, []) for i in insts])
+                fail = [i for i, r in zip(insts, reps) if parse_fields(r).get("cprecomp") != "1"]
+                ctx.count("op.check-precomp-evaluated", len(insts))
+                if fail:
+                    ctx.disagreement(f"op: `Rl4co.Op.CheckPrecomp` fails on {len(fail)} read-back instances (checker bound ≠ "
+                                     "max_length + extracted 1e-5 up to one ulp)", {"inst": fail[0]})
+            if ctx.prop in ("C01", "C05"):
+                # `Rl4co.Op.Precomp`: the read-back budgets ARE `max_length − dist + Params.opResetMargin` up to one
+                # float32 ulp (hypothesis of feasible_of_run_precomp / marginGe_of_precomp / marginLe_of_precomp)
+                insts = [v[3] for v in list(ad._rb.values())[:200]]
+                reps = ctx.driver.ask_many([ad.line("episode", i, []) for i in insts])
+                fail = [i for i, r in zip(insts, reps) if parse_fields(r).get("precomp") != "1"]
+                ctx.count("op.precomp-evaluated", len(insts))
+                if fail:
+                    import extract
+
+                    st = extract.generate(write=False).get("opResetMargin", {}).get("status")
+                    msg = (f"op: `Rl4co.Op.Precomp` fails on {len(fail)} read-back instances (budget ≠ max_length − dist + "
+                           f"extracted margin up to one ulp); probe status: {st}")
+                    if st == "extracted":
+                        ctx.disagreement(msg, {"inst": fail[0]})
+                    else:
+                        ctx.note(msg)
 
     return run
 
@@ -632,7 +673,12 @@ def with_generic(fn):
 def check_reward_prize(ctx, ad):
     """C03: generic reward comparison + the single-column special case of `_get_reward` (a batch-global
     shortcut: the model's `rewardAssert`/0 branch) + boundary kinds counted."""
-    envcorr.check_reward(ctx, ad)
+    for _ in range(5):
+        try:
+            envcorr.check_reward(ctx, ad)
+            break
+        except AssertionError:  # the real reward function raised on a mask-generated batch: recorded as a pending
+            continue            # violation by `_reward_or_pending`; go on with fresh batches
     # the special case: action tensors with a single column
     for _ in range(ctx.budget(6, 60)):
         env, var = envcorr.pick_env(ctx, ad)
@@ -909,6 +955,59 @@ def replay_prize(ctx, ad, witness):
         ctx.violation(ad.accepts_key(inst, sol, f), "real checker accepts a Spec-infeasible solution", {"inst": inst, "actions": sol})
 
 
+def check_forced_starts(ctx, ad, batches_quick: int = 30, batches_thorough: int = 400):
+    """C12 ↔ C01 interface for OP: the real `select_start_nodes(td, env, k)` on exact-stream OP batches vs the C12 model
+    (`Rl4co.Ops.opStarts`) evaluated on the reset masks of THIS family's Lean model (`Rl4co.Op.mask`); every forced start
+    of a row that has a feasible customer must be admitted by the real reset mask, and the forced rollout, continued
+    through the real mask, must be Spec-feasible (theorems `forced_start_admitted`, `forced_rollout_feasible`)."""
+    from rl4co.utils.ops import select_start_nodes
+
+    for g in range(ctx.budget(batches_quick, batches_thorough)):
+        env, var = envcorr.pick_env(ctx, ad)
+        n = ctx.rng.choice([1, 2, 3, 5, 8])
+        B = ctx.rng.choice([1, 2, 3, 5])
+        k = ctx.rng.randint(1, n + 2)
+        insts = envcorr.make_batch(ad, ctx, n, B, var)
+        td = env.reset(ad.to_td(insts))
+        real = select_start_nodes(td, env, num_starts=k).tolist()
+        real_masks = [rl.mask_str(td["action_mask"][r]) for r in range(B)]
+        model_masks = [parse_fields(x)["masks"].split(",")[0] for x in
+                       ctx.driver.ask_many([ad.line("episode", i, []) for i in insts])]
+        if model_masks != real_masks:
+            ctx.disagreement("op: reset mask differs (C12 interface)", {"insts": insts, "real": real_masks, "model": model_masks})
+        bits = " ".join(" ".join(m) for m in model_masks)
+        f = parse_fields(ctx.driver.ask(f"ops.opstarts {n} {k} {B} | {bits}"))
+        model = [int(x) for x in f.get("sel", "").split(",") if x != ""]
+        ctx.case(("op-starts", repr(insts), k))
+        ctx.count(f"op-starts.k={'<=n' if k <= n else '>n'}")
+        if model != real:
+            ctx.disagreement("op: select_start_nodes differs from Rl4co.Ops.opStarts on the model's reset masks",
+                             {"insts": insts, "k": k, "real": real, "model": model})
+        forced = []
+        for row, s0 in enumerate(real):  # row = j*B + b (k-major)
+            b = row % B
+            has_feasible = "1" in real_masks[b][1:]
+            ctx.count(f"op-starts.row-{'with' if has_feasible else 'without'}-feasible-customer")
+            if has_feasible and real_masks[b][s0] != "1":
+                ctx.violation("op:forced-start-not-admitted", "select_start_nodes forces a start the reset mask does not offer",
+                              {"inst": insts[b], "k": k, "start": s0, "mask": real_masks[b]})
+            forced.append((b, s0, has_feasible))
+        # continue the forced rollouts through the real mask and judge them with the Lean Spec
+        rows = [(b, s0) for (b, s0, ok) in forced if ok][:8]
+        if rows:
+            try:
+                td0, ep = envcorr.run_batch(ctx, ad, env, [insts[b] for b, _ in rows], forced=[[s0] for _, s0 in rows])
+            except envcorr.EpisodeFailed:
+                continue
+            reps = ctx.driver.ask_many([ad.line("episode", insts[b], ep.actions[r]) for r, (b, _) in enumerate(rows)])
+            for r, (b, s0) in enumerate(rows):
+                fr = envcorr.compare_trace(ctx, ad, insts[b], ep.actions[r], ep.masks[r], ep.done[r], reps[r], "C12 forced rollout")
+                if fr.get("feas") == "0":
+                    ctx.violation("op:forced-rollout-infeasible", "a multi-start rollout continued through the mask is infeasible",
+                                  {"inst": insts[b], "actions": ep.actions[r]})
+            ctx.sample({"env": "op", "k": k, "forced_starts": real, "masks": real_masks, "rollout": ep.actions[0]}, cap=4)
+
+
 # ---------------------------------------------------------------------------------------------------
 # registration
 # ---------------------------------------------------------------------------------------------------
@@ -922,7 +1021,7 @@ NOTE_OP = ("OPEnv modelled per instance over integers (Rl4co/Env/Op.lean); the p
            "(exact-stream instances make them exact); env / generator options (generator max_length below and above the "
            "instances' own max_length, prize_type, min/max_loc, check_solution, _torchrl_mode) are exercised as variants and "
            "are NOT parameters of the model: the per-instance behaviour must not depend on them; the batched single-column "
-           "path of the checker is modelled separately (Rl4co.Op.checkSingleColumnBatch, rows sharing one point set)")
+           "path of the checker is modelled separately (Rl4co.Op.checkSingleColumnBatch) and probed on every C06 run")
 NOTE_PC = ("PCTSPEnv / SPCTSPEnv modelled per instance over integer ticks (Rl4co/Env/Pctsp.lean, `stochastic` flag selects "
            "the real prize); one env object per instance size because `_reset` sizes `visited` from the generator; "
            "coordinates→distance arithmetic and float32 rounding are outside the model (exact-stream instances make them exact); "
@@ -954,7 +1053,11 @@ def _unit(prop, ad, run, fam, thms, note):
 T = Theorem
 OP_THMS = {
     "C01": [T("Rl4co.Op.feasible_of_run", "proved",
-              "every mask-confined finished OP episode visits customers at most once and its tour length is ≤ max_length")],
+              "every mask-confined finished OP episode visits customers at most once and its tour length is ≤ max_length"),
+            T("Rl4co.Op.feasible_of_run_precomp", "proved",
+              "the same with the reset-time pre-computation inside the model: the only fact used about the budgets is that they "
+              "are `max_length − dist − 1e-6` (extracted constant) up to a float32 rounding error (evaluated on every instance)"),
+            T("Rl4co.Op.marginGe_of_precomp", "proved", "the pre-computed budgets stay ≥ 1e-6 − rho below L − D j 0")],
     "C02": [T("Rl4co.Op.mask_nonempty", "proved", "every state offers the depot"),
             T("Rl4co.Op.done_stable", "proved", "done is absorbing under admitted steps from reachable states"),
             T("Rl4co.Op.steps_le", "proved", "an unfinished mask-confined run has at most max(n+1, 2) steps")],
@@ -965,6 +1068,11 @@ OP_THMS = {
               "KNOWN FINDING: with the budgets the code computes, a tour of length exactly max_length is not mask-reachable"),
             T("Rl4co.Op.run_of_feasible_partial", "partial",
               "every canonical feasible tour with length ≤ max_length − eps (eps ≥ the code's margin) is a finished mask-confined run"),
+            T("Rl4co.Op.marginLe_of_precomp", "proved", "the pre-computed budgets are at most 1e-6 + rho below L − D j 0"),
+            T("Rl4co.Op.opt_eq_margin", "proved",
+              "prizes reachable through the mask = prizes of feasible tours of length ≤ L − margin; the two optima are EQUAL"),
+            T("Rl4co.Op.opt_sandwich", "proved", "with rounding: optimum(≤ L − m_hi) ≤ reachable optimum ≤ optimum(≤ L − m_lo)"),
+            T("Rl4co.Op.reachable_le_feasible", "proved", "the reachable optimum never exceeds the optimum over tours of length ≤ L"),
             T("Rl4co.Op.opt_reachable_partial", "partial",
               "every feasible action list with that slack (canonical or not) has a finished mask-confined episode with the same prize")],
     "C06": [T("Rl4co.Op.check_complete", "proved", "Spec-feasible ⇒ checker accepts (depot triangle inequality)"),
@@ -972,11 +1080,14 @@ OP_THMS = {
               "KNOWN FINDING: an action list that neither starts nor ends at the depot is measured without the depot legs"),
             T("Rl4co.Op.check_sound_partial", "partial",
               "checker accepts a list ending (or starting) at the depot ⇒ feasible within the checker tolerance"),
-            T("Rl4co.Op.check_single_column_batch_counterexample", "proved",
-              "KNOWN FINDING: on a batch of ≥ 2 rows with a single action column the checker tests every row with the "
-              "perimeter of the polygon through the rows' nodes"),
-            T("Rl4co.Op.check_single_column_batch_partial", "partial",
-              "for a batch of one row the single-column path of the checker agrees with the row-wise checker")],
+            T("Rl4co.Op.check_iff_cycle", "proved", "exact: accepted ⇔ in range, no repeated customer, CYCLE through the listed nodes within all bounds"),
+            T("Rl4co.Op.check_iff_of_closed", "proved", "exact for lists closed at the depot: accepted ⇔ … tour through the depot within all bounds"),
+            T("Rl4co.Op.check_iff_feasibleWithin", "proved", "bounds = L + tol ⇒ (accepted ⇔ feasible within tol) for lists closed at the depot"),
+            T("Rl4co.Op.check_complete_precomp", "proved", "completeness with the checker bound `L + 1e-5` (extracted) inside the model"),
+            T("Rl4co.Op.check_sound_precomp", "partial", "soundness for closed lists with the checker bound inside the model"),
+            T("Rl4co.Op.check_single_column_batch", "proved",
+              "on single-column action tensors the batched checker's verdict is the conjunction of the row-wise verdicts "
+              "(upstream fix 9be001b; the real batched checker is compared with this model as a regression probe)")],
 }
 PC_THMS = {
     "C01": [T("Rl4co.Pctsp.feasible_of_run", "proved",
@@ -990,9 +1101,14 @@ PC_THMS = {
     "C05": [T("Rl4co.Pctsp.run_of_feasible", "proved",
               "every canonical feasible solution (prize exactly 1 included) is a finished mask-confined run"),
             T("Rl4co.Pctsp.opt_reachable", "proved",
-              "for every feasible action list some finished mask-confined episode has reward ≥ −its objective (optimum reachable)")],
+              "for every feasible action list some finished mask-confined episode has reward ≥ −its objective (optimum reachable)"),
+            T("Rl4co.Pctsp.opt_eq", "proved",
+              "equation of optima: v is the best reward over finished mask-confined episodes ⇔ v is the optimum over feasible solutions")],
     "C06": [T("Rl4co.Pctsp.check_complete", "proved", "Spec-feasible ⇒ checker accepts"),
-            T("Rl4co.Pctsp.check_sound", "proved", "checker accepts ⇒ feasible within the prize tolerance")],
+            T("Rl4co.Pctsp.check_sound", "proved", "checker accepts ⇒ feasible within the prize tolerance"),
+            T("Rl4co.Pctsp.check_iff_feasibleWithin", "proved", "exact iff: accepted ⇔ feasible within the prize tolerance (any list)"),
+            T("Rl4co.Pctsp.check_zero_iff_feasible", "proved", "with tolerance 0 the checker decides feasibility exactly"),
+            T("Rl4co.Pctsp.check_sound_extracted", "proved", "with the extracted `1 − 1e-5`: accepted ⇒ prize ≥ 99999/100000 of the requirement or all visited")],
 }
 
 ROUTINES = {
@@ -1008,3 +1124,54 @@ for _p, _run in ROUTINES.items():
     _unit(_p, OP, _run, "Op", OP_THMS[_p], NOTE_OP)
     _unit(_p, PC, _run, "Pctsp", PC_THMS[_p], NOTE_PC)
     _unit(_p, SP, _run, "Pctsp", PC_THMS[_p], NOTE_PC)
+
+if _module_text("Rl4co.Props.C12.Op"):
+    register(Unit("C12", "op-starts", lambda ctx: check_forced_starts(ctx, OP), drivers=["drv_op", "drv_ops"],
+                  lean_modules=["Rl4co.Props.C12.Op"],
+                  theorems=[T("Rl4co.Op.forced_start_admitted", "proved",
+                              "every start forced by select_start_nodes (C12 model) on the OP model's reset mask is an admitted first move"),
+                            T("Rl4co.Op.forced_rollout_feasible", "proved",
+                              "every mask-confined continuation of a forced start is a feasible orienteering solution")],
+                  assumptions=[NOTE_OP, "interface of the C12 start-node model (Rl4co/Train/Select.lean) with the OP environment model"]))
+
+
+def check_gen_link(ctx, ad, batches_quick: int = 10, batches_thorough: int = 120):
+    """C18 → environment link for PCTSP / SPCTSP: instances of the bundled generator satisfy `Rl4co.Pctsp.GenWF`
+    (evaluated on the real draws in float64) and finished mask-confined episodes that leave a customer unvisited have
+    collected an EXPECTED prize ≥ 1/2 (theorem `expected_ge_half_of_done`; ≥ 1 for PCTSP)."""
+    for g in range(ctx.budget(batches_quick, batches_thorough)):
+        n = ctx.rng.choice([1, 2, 5, 10, 20, 50])
+        B = ctx.rng.choice([1, 4, 16])
+        torch.manual_seed(ctx.rng.randrange(1 << 31))
+        env = ad.env_class()(generator_params=dict(num_loc=n, penalty_factor=ctx.rng.choice([3.0, 0.5, 10.0])), check_solution=False)
+        td0 = env.generator(batch_size=[B])
+        det, sto, pen = (td0[k].double() for k in ("deterministic_prize", "stochastic_prize", "penalty"))
+        ok = bool((det >= 0).all() and (n * det < 4 + 1e-6).all() and (sto >= 0).all() and (sto <= 2 * det + 1e-7).all() and (pen >= 0).all())
+        ctx.count(f"{ad.name}.genwf.n={n}", B)
+        if not ok:
+            ctx.violation(f"{ad.name}:generator-not-GenWF", "a generator instance violates the ranges of Rl4co.Pctsp.GenWF",
+                          {"n": n, "det": det.tolist()[:2], "sto": sto.tolist()[:2], "pen": pen.tolist()[:2]})
+        ep = rl.run_episode(env, td0, envcorr.uniform_chooser(ctx.rng), max_steps=20 * (n + 2) + 50)
+        for r in range(B):
+            cust = sorted(set(a for a in ep.actions[r] if a != 0))
+            expected = float(sum(det[r, a - 1] for a in cust))
+            ctx.case((ad.name, "genlink", g, r, tuple(ep.actions[r])))
+            if len(cust) < n:
+                ctx.count(f"{ad.name}.genwf.episodes-leaving-customers")
+                if 2 * expected < 1 - 1e-5 or (not ad.stochastic and expected < 1 - 1e-5):
+                    ctx.violation(f"{ad.name}:expected-prize-below-half", "finished episode with unvisited customers collected an "
+                                  "expected prize below 1/2 (PCTSP: below 1)", {"n": n, "actions": ep.actions[r], "expected": expected})
+            ctx.sample({"env": ad.name, "n": n, "actions": ep.actions[r], "expected_prize": expected}, cap=4)
+
+
+if _module_text("Rl4co.Props.C18.Pctsp"):
+    for _ad in (PC, SP):
+        register(Unit("C18", f"{_ad.name}-genwf", (lambda ctx, ad=_ad: check_gen_link(ctx, ad)), drivers=[],
+                      lean_modules=["Rl4co.Props.C18.Pctsp"],
+                      theorems=[T("Rl4co.Pctsp.genInst_wf", "proved", "generator draws in [0,1) give a GenWF instance (via Gen.pctsp_ranges)"),
+                                T("Rl4co.Pctsp.collected_le_twice_expected", "proved", "real prize collected ≤ 2 × expected prize (GenWF)"),
+                                T("Rl4co.Pctsp.expected_ge_half_of_done", "proved",
+                                  "a finished mask-confined episode leaving a customer unvisited has expected prize ≥ requirement/2"),
+                                T("Rl4co.Pctsp.admitted_customers_indep", "proved",
+                                  "customer moves are admitted independently of the prizes / the stochastic flag")],
+                      assumptions=[NOTE_PC, "generator ranges are evaluated on the real draws in float64 (no Lean driver involved)"]))
